@@ -47,10 +47,7 @@ def gen_history(seed, i):
             steps.append({"op": "type", "schema": {"$ref": "#/definitions/" + n}})
         elif k < 0.8 and subs:
             s = copy.deepcopy(r.choice(subs))
-            # a hint equal to a definition name that is added only LATER is the recorded finding KF-C16-1;
-            # the random histories stay out of it (the pinned corpus history re-observes it)
-            later = {workloads.sanitize_guess(n) for c in pending for n in c}
-            pool = [h for h in name_pool if h not in later]
+            pool = name_pool
             needs_name = not (s.get("type") in ("array", "integer") or
                               (s.get("type") == "string" and set(s) <= {"type", "format"}))
             hint = r.choice(pool) if (needs_name or r.random() < 0.6) else None
